@@ -24,6 +24,7 @@ type effects struct {
 	heap    map[string]bool // heap key prefixes
 	mem     map[string]bool // element type keys
 	streams bool            // ghost stream position/peeked/fault of some reader
+	foreign string          // everything not owned by this package
 	why     string
 }
 
@@ -61,6 +62,9 @@ func (e *effects) String() string {
 	}
 	if e.streams {
 		ps = append(ps, "streams")
+	}
+	if e.foreign != "" {
+		ps = append(ps, "foreign("+e.foreign+")")
 	}
 	sort.Strings(ps)
 	return strings.Join(ps, ",")
@@ -218,6 +222,24 @@ func (c *Ctx) contractEffect(e *effects, ct *Contract, names calleeNames) {
 		if m.Text == "*" {
 			e.setAll("callee " + ct.Name + " modifies *")
 			return
+		}
+		if m.Text == "foreign" || (strings.HasPrefix(m.Text, "foreign(") && strings.HasSuffix(m.Text, ")")) {
+			p := ""
+			if m.Text != "foreign" {
+				p = strings.TrimSpace(m.Text[8 : len(m.Text)-1])
+			} else if names.pkg != nil {
+				p = relPkg(names.pkg.Path())
+			} else {
+				e.setAll("modifies foreign without package")
+				return
+			}
+			if e.foreign != "" && e.foreign != p {
+				e.setAll("foreign of two packages")
+				return
+			}
+			e.foreign = p
+			e.streams = true
+			continue
 		}
 		switch x := m.Expr.(type) {
 		case *ast.CallExpr:
@@ -452,7 +474,7 @@ func (c *Ctx) callEffect(e *effects, fn *ssa.Function, com *ssa.CallCommon, dept
 	}
 	if callee == nil {
 		if key := callbackKey(com.Value); key != "" {
-			if ct := c.w.contracts["callback "+key]; ct != nil {
+			if ct := c.w.callbackContract(key); ct != nil {
 				c.contractEffect(e, ct, c.namesFor(ct, nil, com))
 				return
 			}
@@ -493,6 +515,9 @@ func (c *Ctx) havocEffects(s *State, e *effects, reach string) {
 		m(c, s)
 	}
 	c.touchAll(s)
+	if e.foreign != "" {
+		c.havocForeign(s, e.foreign, reach)
+	}
 	g := 0
 	gen := func() int {
 		if g == 0 {
@@ -503,7 +528,7 @@ func (c *Ctx) havocEffects(s *State, e *effects, reach string) {
 	for p := range e.heap {
 		for k := range s.heap {
 			if keyHasPrefix(k, p) {
-				s.heap[k] = c.fresh("H", s.hsort[k])
+				s.heap[k] = c.freshHeap(s.hsort[k])
 			}
 		}
 		if s.pgen == nil {
@@ -515,7 +540,7 @@ func (c *Ctx) havocEffects(s *State, e *effects, reach string) {
 		for _, gk := range streamGhosts {
 			key := "ghost." + gk.name
 			c.heapGet(s, key, gk.sort)
-			s.heap[key] = c.fresh("H", s.hsort[key])
+			s.heap[key] = c.freshHeap(s.hsort[key])
 		}
 	}
 	oldU8 := s.mem["uint8"]
